@@ -48,6 +48,29 @@ func applyTrailers(expr ast.Expr, trailers []ast.Expr) ast.Expr {
 
 // Set the context for expr
 func setCtx(yylex yyLexer, expr ast.Expr, ctx ast.ExprContext) {
+	// Tuple, List and Starred targets: check the elements here, so that an element which
+	// can't be a target is reported as a SyntaxError rather than panicking in ast.SetCtx
+	switch x := expr.(type) {
+	case *ast.Tuple:
+		for _, elt := range x.Elts {
+			setCtx(yylex, elt, ctx)
+		}
+		if yylex.(*yyLex).error {
+			return
+		}
+	case *ast.List:
+		for _, elt := range x.Elts {
+			setCtx(yylex, elt, ctx)
+		}
+		if yylex.(*yyLex).error {
+			return
+		}
+	case *ast.Starred:
+		setCtx(yylex, x.Value, ctx)
+		if yylex.(*yyLex).error {
+			return
+		}
+	}
 	setctxer, ok := expr.(ast.SetCtxer)
 	if !ok {
 		expr_name := ""
